@@ -26,10 +26,10 @@ class Unsupported(Exception):
 
 
 class Sx(object):
-    __slots__ = ("s", "sort")
+    __slots__ = ("s", "sort", "num")
 
     def __init__(self, s, sort="F"):
-        self.s, self.sort = s, sort
+        self.s, self.sort, self.num = s, sort, None
 
     def __repr__(self):
         return "Sx(%s)" % self.s[:80]
@@ -79,7 +79,9 @@ class Ctx(object):
         self.n += 1
         nm = "%s_%d" % (prefix, self.n)
         self.decls.append("(define-fun %s () %s %s)" % (nm, F64 if sx.sort == "F" else "Bool", sx.s))
-        return Sx(nm, sx.sort)
+        r = Sx(nm, sx.sort)
+        r.num = sx.num
+        return r
 
     def resolve(self, name):
         for d in self.ns:
@@ -145,7 +147,11 @@ def round0(ctx, y):
 
 def round_p(ctx, y, p):
     """Python round(y, p), p concrete int >= 0, exact.  Adds the defining constraints of the
-    auxiliary integer n (as an integral Float64, |n| < 2^50) to ctx.asserts."""
+    auxiliary integer n (an integral Float64, |n| < 2^50) to ctx.asserts:
+        n is the integer nearest to y*10^p (exact real product), ties to even; result = RN(n / 10^p).
+    The real comparisons (2n-1) <= 2*10^p*y <= (2n+1) are decided exactly with one fused multiply-add
+    each: fma(y, 2*10^p, -(2n+-1)) rounds the exact residual once, which preserves its sign and
+    its being zero."""
     if p == 0:
         return round0(ctx, y)      # float.__round__(0) returns a float rounded half-even as well
     if not isinstance(p, int) or p < 0 or p > 15:
@@ -154,25 +160,33 @@ def round_p(ctx, y, p):
     n = ctx.fresh("n")
     ten = fpconst(float(10 ** p))
     two_ten = fpconst(float(2 * 10 ** p))
-    one, two = fpconst(1.0), fpconst(2.0)
+    one, two, half_c, zero = fpconst(1.0), fpconst(2.0), fpconst(0.5), fpconst(0.0)
     lim = fpconst(float(2 ** 50))
     A = ctx.asserts
     A.append("(= %s (fp.roundToIntegral RNE %s))" % (n, n))
     A.append("(fp.lt (fp.abs %s) %s)" % (n, lim))
     lo_num = "(fp.sub RNE (fp.mul RNE %s %s) %s)" % (two, n, one)     # 2n-1 exact
     hi_num = "(fp.add RNE (fp.mul RNE %s %s) %s)" % (two, n, one)     # 2n+1 exact
-    lo_up = "(fp.div RTP %s %s)" % (lo_num, two_ten)                  # smallest double >= (2n-1)/(2*10^p)
-    lo_dn = "(fp.div RTN %s %s)" % (lo_num, two_ten)
-    hi_dn = "(fp.div RTN %s %s)" % (hi_num, two_ten)                  # largest double <= (2n+1)/(2*10^p)
-    hi_up = "(fp.div RTP %s %s)" % (hi_num, two_ten)
-    A.append("(fp.leq %s %s)" % (lo_up, y.s))
-    A.append("(fp.leq %s %s)" % (y.s, hi_dn))
-    # ties (the bound itself is a double and y sits on it): n must be even
-    half = "(fp.div RNE %s %s)" % (n, two)
-    even = "(= %s (fp.roundToIntegral RNE %s))" % (half, half)
-    A.append("(=> (and (fp.eq %s %s) (fp.eq %s %s)) %s)" % (lo_up, lo_dn, y.s, lo_up, even))
-    A.append("(=> (and (fp.eq %s %s) (fp.eq %s %s)) %s)" % (hi_up, hi_dn, y.s, hi_dn, even))
-    return Sx("(fp.div RNE %s %s)" % (n, ten))
+    ctx.n += 1
+    rlo, rhi = "rlo_%d" % ctx.n, "rhi_%d" % ctx.n
+    ctx.decls.append("(define-fun %s () %s (fp.fma RNE %s %s (fp.neg %s)))" % (rlo, F64, y.s, two_ten, lo_num))
+    ctx.decls.append("(define-fun %s () %s (fp.fma RNE %s %s (fp.neg %s)))" % (rhi, F64, y.s, two_ten, hi_num))
+    A.append("(fp.geq %s %s)" % (rlo, zero))
+    A.append("(fp.leq %s %s)" % (rhi, zero))
+    halfn = "(fp.mul RNE %s %s)" % (n, half_c)
+    even = "(= %s (fp.roundToIntegral RNE %s))" % (halfn, halfn)
+    A.append("(=> (or (fp.isZero %s) (fp.isZero %s)) %s)" % (rlo, rhi, even))
+    r = Sx("(fp.div RNE %s %s)" % (n, ten))
+    r.num = (n, p)
+    return r
+
+
+def same_decimal(a, b):
+    """a == b for values that are RN(integer / 10^p): decided on the integers when both carry them"""
+    na, nb = getattr(a, "num", None), getattr(b, "num", None)
+    if na and nb and na[1] == nb[1]:
+        return Sx("(fp.eq %s %s)" % (na[0], nb[0]), "B")
+    return fp_cmp("eq", a, b)
 
 
 # ------------------------------------------------------------------ AST evaluation
@@ -197,6 +211,15 @@ def eval_expr(ctx, node, env):
         if is_conc(base):
             return getattr(base, node.attr)
         raise Unsupported("attribute of symbolic value: %s" % key)
+    if isinstance(node, ast.Subscript):
+        key = ast.unparse(node)
+        if key in env:
+            return env[key]
+        base = eval_expr(ctx, node.value, env)
+        idx = eval_expr(ctx, node.slice, env)
+        if is_conc(base) and is_conc(idx):
+            return base[idx]
+        raise Unsupported("subscript of symbolic value: %s" % key)
     if isinstance(node, ast.UnaryOp):
         v = eval_expr(ctx, node.operand, env)
         if isinstance(node.op, ast.USub):
